@@ -29,6 +29,7 @@ INFO = {
         'tables are dicts installed in the DBI singleton; the blob store and staging area are an in-memory file system; md5sum/sha1sum answered with hashlib',
         'a request crosses pickle and is executed by a fresh real comms.Worker (no socket); the database lock is a no-op here (C13)',
         'contents are opaque strings inside real dawgie.Value subclasses (pickled for real)',
+        'after every load the harness changes the loaded value object in place, as a client may: a later load must not see it (no aliasing between loads)',
         'run ids / versions come from pools (keys are str(tuple) read back with eval, and every request is pickled: both realise symbolic values)',
     ],
     'outside': ['PostgreSQL back end (no server offline)', 'longer histories', 'close/reopen (covered in C08 with real shelve files)', 'retarget'],
